@@ -36,14 +36,16 @@ RULE = ('1-12 bindings with unique (scope, configurable, parameter) keys over {a
         'imports; a permutation of the order; max_line_length 5-120, continuation_indent 0-8 '
         '(< width). Non-trivial = a value that wraps at the chosen width, a reference or macro, a '
         'scoped and a module-qualified name, and (permutation != identity or a non-literal value). '
-        'Distinct = distinct case JSON.')
+        'Dynamic variant: a generated package with two modules of the same leaf name; bindings '
+        'through 1-3 imports (4 forms, aliases) and programmatic bindings on modules the text did not '
+        'import; round trip of values and text. Distinct = distinct case JSON.')
 ASSUMPTIONS = ['values are exact builtin types (no int/str subclasses whose repr parses back)',
                'parameter names are identifiers and scopes valid scope names',
                'a fresh configuration is obtained with gin.clear_config() (C20 checks that)',
                '"alphabetical" is checked as: section order is non-decreasing in the lower-cased '
                'configurable name (Class.method for methods); the exact tie-breaking is only '
                'required to be order-independent']
-FLOORS = {'nontrivial': 0.1, 'wraps': 0.3, 'nonliteral': 0.2, 'macro-nonliteral': 0.03,
+FLOORS = {'nontrivial': 0.1, 'wraps': 0.25, 'nonliteral': 0.12, 'kind:dynamic': 0.1, 'macro-nonliteral': 0.03,
           'permuted': 0.5, 'case-variant-keys': 0.1, 'import': 0.2}
 TECHNIQUE = ('round-trip and metamorphic property testing of the serialiser: parse(config_str) '
              'restores the representable subset and is a fixed point, order-permutation '
@@ -314,7 +316,118 @@ def lits(v):
       yield from lits(x)
 
 
+# ------------------------------------------------------------------ dynamic registration variant
+DYN_FILES = {
+    'c06a/__init__.py': '', 'c06b/__init__.py': '',
+    'c06a/utils.py': 'import gin\n\n@gin.register\ndef make(x=None, y=None):\n  return ("a.utils", x, y)\n',
+    'c06b/utils.py': 'import gin\n\n@gin.register\ndef make(x=None, y=None):\n  return ("b.utils", x, y)\n',
+    'c06a/other.py': ('def build(x=None, y=None):\n  return ("a.other", x, y)\n\n'
+                      'class K:\n  def __init__(self, x=None):\n    self.x = x\n'),
+}
+DYN_MODULES = ['c06a.utils', 'c06b.utils', 'c06a.other']
+DYN_TARGETS = {'c06a.utils': ['make'], 'c06b.utils': ['make'], 'c06a.other': ['build', 'K']}
+DYN_FORMS = ['import {m}', 'import {m} as {a}', 'from {p} import {l}', 'from {p} import {l} as {a}']
+
+
+def check_dyn(case):
+  """Round trip with dynamic registration: bindings written through a file's own imports plus
+  programmatic bindings on configurables the file did not import (so config_str has to add, and
+  possibly re-alias, imports)."""
+  import importlib, os, shutil, sys, tempfile  # pylint: disable=g-import-not-at-top,multiple-imports
+  tmp = tempfile.mkdtemp(prefix='c06-')
+  try:
+    for rel, src in DYN_FILES.items():
+      path = os.path.join(tmp, rel)
+      os.makedirs(os.path.dirname(path), exist_ok=True)
+      with open(path, 'w') as f:
+        f.write(src)
+    sys.path.insert(0, tmp)
+    lines = ['from __gin__ import dynamic_registration']
+    bound = {}
+    model = {}          # (module, attr, param) -> value
+    for mi, form, alias in case['imports']:
+      m = DYN_MODULES[mi % len(DYN_MODULES)]
+      pkg, leaf = m.rsplit('.', 1)
+      text = DYN_FORMS[form % 4].format(m=m, p=pkg, l=leaf, a=alias)
+      name = alias if '{a}' in DYN_FORMS[form % 4] else (m if form % 4 == 0 else leaf)
+      if name in bound or any(b == m for b in bound.values()):
+        continue
+      bound[name] = m
+      lines.append(text)
+    spelled = {m: n for n, m in bound.items()}
+    for mi, ti, param, value, how in case['bindings']:
+      m = DYN_MODULES[mi % len(DYN_MODULES)]
+      attr = DYN_TARGETS[m][ti % len(DYN_TARGETS[m])]
+      if attr == 'K' and param == 'y':
+        param = 'x'
+      if how == 'text' and m in spelled:
+        lines.append(f'{spelled[m]}.{attr}.{param} = {value!r}')
+      else:
+        how = 'late'
+      model[(m, attr, param)] = (value, how)
+    gin.parse_config('\n'.join(lines) + '\n')
+    for (m, attr, param), (value, how) in model.items():
+      if how == 'late':
+        obj = getattr(importlib.import_module(m), attr)
+        try:
+          gin.get_configurable(obj)
+        except ValueError:
+          gin.external_configurable(obj, module=m)
+        gin.bind_parameter(('', gin.get_configurable(obj) and _selector_of(obj), param), value)
+    labels = {'kind:dynamic'}
+    if any(h == 'late' for _, h in model.values()):
+      labels.add('dyn:programmatic-binding-on-unimported-module')
+
+    def observe():
+      out = {}
+      for (m, attr, param) in model:
+        obj = getattr(importlib.import_module(m), attr)
+        out[(m, attr, param)] = gin.get_bindings(obj).get(param, 'MISSING')
+      return out
+
+    want = {k: v for k, (v, _) in model.items()}
+    require(observe() == want, 'dyn-bindings-before', lambda: f'{observe()} vs {want}')
+    s1 = gin.config_str()
+    gin.clear_config()
+    try:
+      gin.parse_config(s1)
+    except Exception as e:  # pylint: disable=broad-except
+      raise Violation('config_str-does-not-parse', f'{type(e).__name__}: {e}\n{s1}')
+    got = observe()
+    require(got == want, 'round-trip-value',
+            lambda: f'after re-parse {got}, expected {want}\n--- config_str:\n{s1}')
+    s2 = gin.config_str()
+    require(s2 == s1, 'round-trip-text', lambda: f'--- first:\n{s1}\n--- second:\n{s2}')
+    leafs = [bound_m.rsplit('.', 1)[-1] for bound_m in {m for (m, _, _) in model}]
+    if len(set(leafs)) < len(leafs):
+      labels.add('dyn:colliding-module-names')
+    nt = 'dyn:programmatic-binding-on-unimported-module' in labels and len(model) >= 2
+    if nt:
+      labels.add('nontrivial')
+    return ok(labels, nt)
+  finally:
+    if tmp in sys.path:
+      sys.path.remove(tmp)
+    shutil.rmtree(tmp, ignore_errors=True)
+
+
+def _selector_of(obj):
+  """Complete selector of a registered object, through public API only: the unique name under
+  which gin.get_configurable(name) returns the same configurable."""
+  target = gin.get_configurable(obj)
+  mod, name = obj.__module__, obj.__name__
+  for cand in (f'{mod}.{name}', name):
+    try:
+      if gin.get_configurable(cand) is target:
+        return cand
+    except (ValueError, KeyError):
+      continue
+  raise OutOfDomain('cannot name the configurable')
+
+
 def check_case(case):
+  if case.get('kind') == 'dynamic':
+    return check_dyn(case)
   labels = set()
   width, indent = case['width'], case['indent']
   for v in [b[3] for b in case['bindings']] + [m[1] for m in case['macros']]:
@@ -509,7 +622,24 @@ def _value(depth=2):
 
 
 @st.composite
-def strategy(draw):
+def _dyn_case(draw):
+  imports = draw(st.lists(st.tuples(st.integers(0, 2), st.integers(0, 3),
+                                    st.sampled_from(['u', 'utils', 'mm'])).map(list),
+                          min_size=1, max_size=3))
+  bindings = draw(st.lists(
+      st.tuples(st.integers(0, 2), st.integers(0, 1), st.sampled_from(['x', 'y']),
+                st.integers(0, 9) | st.sampled_from(['v', [1, 2]]),
+                st.sampled_from(['text', 'late'])).map(list),
+      min_size=1, max_size=5, unique_by=lambda b: (b[0] % 3, b[1], b[2])))
+  return {'kind': 'dynamic', 'imports': imports, 'bindings': bindings}
+
+
+def strategy():
+  return st.one_of(_static_case(), _static_case(), _static_case(), _dyn_case())
+
+
+@st.composite
+def _static_case(draw):
   keys = draw(st.lists(
       st.tuples(st.sampled_from(SCOPES), st.sampled_from(FULL), st.sampled_from('pq')),
       min_size=1, max_size=12, unique=True))
